@@ -104,5 +104,6 @@ func ExportForms(run *core.Run) int {
 	}
 	f.Close()
 	os.Setenv("VERIF_EXTRA_STMTS", f.Name())
+	core.RemoveAtExit(f.Name())
 	return len(out)
 }
